@@ -120,6 +120,9 @@ def _mech_job(args):
                 fired=sorted({f['rule'] for f in findings}) or [core.LAST_ERROR[-200:]])
 
 
+KINDS = ('rename', 'flipcmp', 'swapif', 'guard', 'unguard', 'retvar', 'splitand')
+
+
 def run_mechanical(prop, repo='/repo', jobs=None):
     """Mechanical behaviour-preserving rewrites of every function in the property's anchored Python files (rename all
     locals; flip every comparison; exchange if/else branches under the negated test): the check must stay silent."""
@@ -144,7 +147,7 @@ def run_mechanical(prop, repo='/repo', jobs=None):
             else:
                 quals = []
             for q in quals:
-                for kind in ('rename', 'flipcmp', 'swapif'):
+                for kind in KINDS:
                     todo.append((prop, str(repo), rel, q, kind))
     out = []
     with cf.ProcessPoolExecutor(max_workers=jobs or min(16, os.cpu_count() or 4)) as ex:
